@@ -366,6 +366,10 @@ def record_history(rec, ops, res):
         rec.finding(clause, cause, {'ops': ops}, det)
 
 
+class BudgetOver(Exception):
+    """the wall-clock budget of the worker is used up: the search ends here (inconclusive, never a violation)"""
+
+
 def make_machine(rec, budget):
     U = universe()
 
@@ -377,14 +381,20 @@ def make_machine(rec, budget):
 
         @rule(i=st.integers(0, len(UNIVERSE) - 1), half=st.sampled_from(['pub', 'sec']), form=st.sampled_from(FORMS))
         def load(self, i, half, form):
-            if self.broken or budget.over():
+            if budget.over():
+                # stop the whole run: turning rules into no-ops would change what later steps may draw for the same choice prefix
+                raise BudgetOver()
+            if self.broken:
                 return
             self._do(['load', i, half, form])
 
         @precondition(lambda self: len(self.s.loaded) > 0)
         @rule(data=st.data())
         def unload(self, data):
-            if self.broken or budget.over():
+            if budget.over():
+                # stop the whole run: turning rules into no-ops would change what later steps may draw for the same choice prefix
+                raise BudgetOver()
+            if self.broken:
                 return
             i, half = data.draw(st.sampled_from(sorted(self.s.loaded)))
             inf = U.info[i]
@@ -395,7 +405,10 @@ def make_machine(rec, budget):
         @precondition(lambda self: any(U.info[i]['subs'] for i, _ in self.s.loaded))
         @rule(data=st.data())
         def unload_subkey(self, data):
-            if self.broken or budget.over():
+            if budget.over():
+                # stop the whole run: turning rules into no-ops would change what later steps may draw for the same choice prefix
+                raise BudgetOver()
+            if self.broken:
                 return
             i, half = data.draw(st.sampled_from(sorted(x for x in self.s.loaded if U.info[x[0]]['subs'])))
             f = data.draw(st.sampled_from(U.info[i]['subs']))
@@ -429,7 +442,15 @@ def w_machine(arg):
     rec = harness.Rec()
     budget = harness.Budget(bsec)
     M = make_machine(rec, budget)
-    run_state_machine_as_test(hypothesis.seed(harness.derive_seed('C19', seed, idx))(M), settings=harness.hyp_settings(n, stateful_steps=steps))
+    try:
+        run_state_machine_as_test(hypothesis.seed(harness.derive_seed('C19', seed, idx))(M), settings=harness.hyp_settings(n, stateful_steps=steps))
+    except BudgetOver:
+        rec.inconclusive = True
+    except BaseException:   # noqa
+        # Hypothesis reports a run cut short by the budget in several ways (the replay of the "failing" example is cut short again)
+        if not budget.over():
+            raise
+        rec.inconclusive = True
     if budget.over():
         rec.inconclusive = True
     return rec
